@@ -20,6 +20,12 @@
 (*   Locked Built Connect Sent Flushed Close Unlock Deq     hooks          *)
 (*   Enq             s id ... ok     harness, queue mode (interval)        *)
 (*   ListenerDown/ListenerUp         harness                               *)
+(*   Config   via lic qreq srv  ->  obs_lic obs_qcap closed dial           *)
+(*            harness, between sends: the configuration was changed by     *)
+(*            assignment to the exported fields ("field") or by ApplyConfig*)
+(*            ("apply"); what the client did inside ApplyConfig (dropped   *)
+(*            the connection?  dialled, with which result?) is collected   *)
+(*            from the hooks into this one event                           *)
 (*   End                              scenario over: everything the        *)
 (*                                    collector saw must be explained      *)
 (*                                                                         *)
@@ -59,13 +65,13 @@ Tick == /\ Ev.t[2] >= clock
 
 Step(name) == /\ todo = <<>> /\ IsEv(l, name) /\ l' = l + 1 /\ Tick
 
-TraceInit == /\ InitWith([queue |-> FALSE, qcap |-> 0, deflic |-> NoLic])
+TraceInit == /\ InitWith([queue |-> FALSE, qcap |-> 0, deflic |-> NoLic, srv |-> Here, gen |-> 0])
              /\ l = 1 /\ proph = <<>> /\ lics = <<>> /\ clock = 0 /\ nst = 0 /\ wbytes = 0
              /\ todo = <<>> /\ todoErr = FALSE /\ HwmInit
 
 TraceReset ==
   /\ IsEv(l, "Reset") /\ l' = l + 1
-  /\ conf' = [queue |-> Ev.queue, qcap |-> Ev.qcap, deflic |-> Ev.deflic]
+  /\ conf' = [queue |-> Ev.queue, qcap |-> Ev.qcap, deflic |-> Ev.deflic, srv |-> Here, gen |-> 0]
   /\ lock' = None
   /\ pc' = [a \in Actor |-> "idle"] /\ cur' = [a \in Actor |-> NoPack] /\ fr' = [a \in Actor |-> <<>>]
   /\ res' = [a \in Actor |-> "-"]
@@ -219,6 +225,21 @@ TraceEnq == /\ Step("Enq")
 TraceDeq == /\ Step("Deq") /\ queue # <<>> /\ Head(queue).id = Ev.id
             /\ Dequeue /\ Quiet
 
+\* a configuration change between sends.  The client's state after it is the requested one (ApplyConfig leaves
+\* the capacity alone unless a positive one is given); ApplyConfig drops the connection and dials again exactly if the
+\* license or the server list changed.
+TraceConfig ==
+  /\ Step("Config") /\ ~todoErr
+  /\ LET via == Ev.via
+         newcap == IF via = "apply" /\ Ev.qreq <= 0 THEN conf.qcap ELSE Ev.qreq
+         redial == via = "apply" /\ (Ev.lic # conf.deflic \/ Ev.srv # conf.srv) IN
+     /\ Ev.obs_lic = Ev.lic /\ Ev.obs_qcap = newcap
+     /\ Ev.closed = (redial /\ conn # 0)
+     /\ (Ev.dial # "none") = redial
+     /\ Reconfig(via, Ev.lic, newcap, Ev.srv, Ev.dial = "ok")
+     /\ IF Ev.dial = "ok" THEN nst' = 0 /\ wbytes' = 0 ELSE UNCHANGED <<nst, wbytes>>
+  /\ UNCHANGED <<proph, lics, todo, todoErr>>
+
 TraceListenerDown == Step("ListenerDown") /\ ListenerDown /\ Quiet
 TraceListenerUp   == Step("ListenerUp") /\ ListenerUp /\ Quiet
 
@@ -257,7 +278,7 @@ InvAll == /\ TypeOK /\ MutualExclusion /\ FramesWhole /\ FreshStart /\ InOrderAt
 TraceNext ==
   /\ \/ TraceReset \/ TraceCall \/ TraceLocked \/ TraceBuilt \/ TraceConnect \/ TraceSent \/ TraceSpill
      \/ TraceClose \/ TraceFlushed \/ TraceUnlock \/ TraceRet \/ TraceEnq \/ TraceDeq
-     \/ TraceListenerDown \/ TraceListenerUp \/ TraceSkipClose \/ TraceWorkerDone \/ TraceEnd
+     \/ TraceListenerDown \/ TraceListenerUp \/ TraceConfig \/ TraceSkipClose \/ TraceWorkerDone \/ TraceEnd
   /\ InvAll'
 
 TraceSpec == TraceInit /\ [][TraceNext]_tvars
